@@ -11,8 +11,10 @@ pub struct Req {
 }
 impl Req {
     pub fn head(&self) -> Vec<u8> {
-        let mut b = format!("{} {} HTTP/1.1\r\n", self.method, self.path).into_bytes();
-        for (n, v) in &self.fields { b.extend(n.as_bytes()); b.extend(b": "); b.extend(v); b.extend(b"\r\n"); }
+        // a pseudo field `#http10` asks for an HTTP/1.0 request line (it is not sent)
+        let minor = if self.fields.iter().any(|(n, _)| n == "#http10") { 0 } else { 1 };
+        let mut b = format!("{} {} HTTP/1.{minor}\r\n", self.method, self.path).into_bytes();
+        for (n, v) in &self.fields { if n == "#http10" { continue; } b.extend(n.as_bytes()); b.extend(b": "); b.extend(v); b.extend(b"\r\n"); }
         b.extend(b"\r\n");
         b
     }
@@ -82,7 +84,7 @@ pub fn gen10(ctx: &Ctx) {
     let mut rng = Rng::new(ctx.seed, "conn10");
     let mut out = Out::new(&ctx.dir, "conn10");
     out.rule = "head limit N in 1..64 (exhaustive) and 4096/16384 (plus 65535, 65536, 65636, 131072 with heads of 200 / 5000 bytes and around N): heads of length max(18,N-2)..N+2 and N+40 (padding a header or the path), with/without body bytes in the same segment, \
-                3 segmentations each (one segment, split in two, small pieces); then a probe request. non-trivial = at least one request answered".into();
+                3 segmentations each (one segment, split in two, small pieces); authority- / absolute- / asterisk-form heads against every limit up to their length + 2; then a probe request. non-trivial = at least one request answered".into();
     let mut ns: Vec<usize> = (1..=64).collect();
     ns.extend([100, 4096, 16384]);
     if !ctx.thorough { ns.retain(|n| *n <= 64 || *n == 4096); }
@@ -118,6 +120,20 @@ pub fn gen10(ctx: &Ctx) {
                     steps.extend(exchange(&mut rng, &probe(), false));
                     finish_case(&mut out, n, steps, &format!("{}/len-N={}", if with_body { "body" } else { "nobody" }, l as i64 - n as i64));
                 }
+            }
+        }
+    }
+    // authority-, absolute- and asterisk-form targets against every limit up to their length + 2: the limit's own read cap cuts the
+    // head at every position, also right after a colon (seed C10-j: the "://" look-ahead read one byte too far exactly there)
+    for head in [&b"CONNECT example.com:443 HTTP/1.1\r\nHost: example.com:443\r\n\r\n"[..], b"GET http://example.com:80/a?b HTTP/1.1\r\n\r\n", b"OPTIONS * HTTP/1.1\r\n\r\n", b"GET ws://h HTTP/1.0\r\n\r\n"] {
+        for n in 1..=head.len() + 2 {
+            if !ctx.thorough && n > 64 && n < head.len() - 1 { continue; }
+            for style in [0u64, 1] {
+                if style == 1 && n % 3 != 0 { continue; }
+                let mut steps: Vec<String> = cut(&mut rng, head, style).iter().map(|s| format!("D{}", hex(s))).collect();
+                steps.push("R".into());
+                steps.extend(exchange(&mut rng, &probe(), false));
+                finish_case(&mut out, n, steps, &format!("other-target-form/len-N={}", head.len() as i64 - n as i64));
             }
         }
     }
@@ -202,7 +218,7 @@ pub fn gen05(ctx: &Ctx) {
     let mut out = Out::new(&ctx.dir, "conn05");
     out.rule = "first request to /all (method POST, GET, HEAD, TRACE, PUT, DELETE or a custom one) with every combination of Content-Length fields {absent, 5, +5, 5x, '5, 5', two equal, two different, 2^64, 20 digits, padded, 05, 0} x \
                 Transfer-Encoding fields {absent, chunked, CHUNKED, 'chunked ', HT chunked, 'gzip, chunked', 'chunked, gzip', gzip, split over two lines both ways, empty}, both field orders, \
-                body sent as a chunked encoding of 'hello' or as 5 raw bytes, head and body in the same or separate segments; then a probe request. non-trivial = at least one request answered".into();
+                body sent as a chunked encoding of 'hello' or as 5 raw bytes, head and body in the same or separate segments, one request in six with an HTTP/1.0 request line; then a probe request; unread bodies of 65535..140000 bytes (fixed and chunked) followed by a probe. non-trivial = at least one request answered".into();
     let cls: Vec<Vec<&[u8]>> = vec![vec![], vec![b"5"], vec![b"+5"], vec![b"5x"], vec![b"5, 5"], vec![b"5", b"5"], vec![b"5", b"6"], vec![b"18446744073709551616"],
         vec![b"99999999999999999999"], vec![b" 5\t"], vec![b"05"], vec![b"0"], vec![b""], vec![b"-5"], vec![b"5", b"x"], vec![b"\x0c5"], vec![b"\x0b5"], vec![b"5\x0c"]];
     let tes: Vec<Vec<&[u8]>> = vec![vec![], vec![b"chunked"], vec![b"CHUNKED"], vec![b"chunked "], vec![b"\tchunked"], vec![b"gzip, chunked"], vec![b"chunked, gzip"], vec![b"gzip"],
@@ -218,6 +234,9 @@ pub fn gen05(ctx: &Ctx) {
             // (only where the body sent is a well-formed instance of the announced framing: a malformed body that nobody reads is
             // finding F21, property C07)
             if rng.chance(1, 5) && (te.is_empty() || bodykind == 0) { fields.push(("x-hook".into(), b"answer".to_vec())); }
+            // one request in six is an HTTP/1.0 request: the version plays no part in the framing decision either (seed C05-i
+            // dropped Transfer-Encoding from HTTP/1.0 requests)
+            if rng.chance(1, 6) { fields.push(("#http10".into(), vec![])); }
             // no framing field at all (or an explicit zero length): the request has no body, and a lock-step
             // client sends nothing before the response
             let bodyless = (cl.is_empty() && te.is_empty()) || (te.is_empty() && cl.iter().all(|v| *v == b"0"));
@@ -230,6 +249,24 @@ pub fn gen05(ctx: &Ctx) {
             steps.extend(exchange(&mut rng, &probe(), false));
             finish_case(&mut out, 4096, steps, &format!("cl={}/te={}/{}", cl.len(), te.len(), if bodykind == 0 { "chunked-body" } else { "raw-body" }));
         } } } }
+    }
+    // bodies of 64 KiB and more that the handler does not read (or reads 3 bytes of): the next request starts after the whole
+    // body all the same (seed C05-j capped the discard of an unread body at 64 KiB)
+    for len in [65535usize, 65536, 65537, 70000, 140000] {
+        for chunkedb in [false, true] {
+            for path in ["/none", "/k/3", "/nosuch"] {
+                if len > 70000 && path != "/none" { continue; }
+                let payload: Vec<u8> = (0..len).map(|i| b'a' + (i % 23) as u8).collect();
+                let (fields, body) = if chunkedb { (vec![("Transfer-Encoding".to_string(), b"chunked".to_vec())], { let mut e = Vec::new(); for c in payload.chunks(4096) { e.extend(format!("{:x}\r\n", c.len()).into_bytes()); e.extend(c); e.extend(b"\r\n"); } e.extend(b"0\r\n\r\n"); e }) }
+                                     else { (vec![("Content-Length".to_string(), len.to_string().into_bytes())], payload.clone()) };
+                let r = Req { method: "POST", path: path.into(), fields, body };
+                let mut steps = vec![format!("D{}", hex(&r.head()))];
+                for c in r.body.chunks(50000) { steps.push(format!("D{}", hex(c))); }
+                steps.push("R".into());
+                steps.extend(exchange(&mut rng, &probe(), false));
+                finish_case(&mut out, 4096, steps, &format!("big-unread-body/{}{path}", if chunkedb { "chunked" } else { "fixed" }));
+            }
+        }
     }
     out.finish();
 }
@@ -290,7 +327,9 @@ pub fn gen07(ctx: &Ctx) {
     let mb = if ctx.thorough { 400 } else { 60 };
     for _ in 0..mb {
         let good = chunked(b"hello world", &mut rng);
-        let (fields, body, kind): (Vec<(String, Vec<u8>)>, Vec<u8>, &str) = match rng.below(4) {
+        let (fields, body, kind): (Vec<(String, Vec<u8>)>, Vec<u8>, &str) = match rng.below(5) {
+            // a chunk size above 2^64 that agrees with the data modulo 2^64 (seed C07-i)
+            4 => { (vec![("Transfer-Encoding".to_string(), b"chunked".to_vec())], b"10000000000000005\r\nhello\r\n0\r\n\r\n".to_vec(), "overflow-size") }
             0 => { let mut b = good.clone(); b[0] = b'x'; (vec![("Transfer-Encoding".to_string(), b"chunked".to_vec())], b, "bad-size") }
             1 => { let pos = good.windows(2).rposition(|w| w == b"\r\n").unwrap(); let mut b = good.clone(); b[pos] = b'Z'; (vec![("Transfer-Encoding".to_string(), b"chunked".to_vec())], b, "bad-end") }
             2 => { let mut b = b"5\r\nhelloXX".to_vec(); b.extend(b"0\r\n\r\n"); (vec![("Transfer-Encoding".to_string(), b"chunked".to_vec())], b, "bad-crlf") }
